@@ -218,6 +218,22 @@ fn main() {
             };
             let _ = std::fs::write(&out, v.to_string());
         }
+        "find-colliders" => {
+            // one-off search behind gen::keys::COLLIDER_COUNTERS: Ed25519 seeds whose key ids share the first eight
+            // hexadecimal characters (the part of a key id that names a link file)
+            let n: u32 = args.get(2).and_then(|s| s.parse().ok()).unwrap_or(400_000);
+            for hash_algs in [true, false] {
+                let mut seen: std::collections::HashMap<String, u32> = std::collections::HashMap::new();
+                for c in 0..n {
+                    let kp = ring::signature::Ed25519KeyPair::from_seed_unchecked(&gen::keys::wide_seed(c)).expect("seed");
+                    let d = model::keyid::KeyDesc { keytype: "ed25519", scheme: "ed25519", hash_algs, public: data_encoding::HEXLOWER.encode(ring::signature::KeyPair::public_key(&kp).as_ref()) };
+                    let id = model::keyid::reference_key_id_of(&d);
+                    if let Some(prev) = seen.insert(id[..8].to_string(), c) {
+                        println!("hash_algs={} counters {} {} prefix {}", hash_algs, prev, c, &id[..8]);
+                    }
+                }
+            }
+        }
         "verify-dir" => {
             // one verification in a fresh process (fresh hash seeds); used by C13
             let dir = PathBuf::from(args.get(2).cloned().unwrap_or_default());
